@@ -479,3 +479,38 @@ Section props.
     apply rr_weighted_cycle; [apply state_after_wf|rewrite state_after_eps; exact Hne|rewrite Hca; exact Hcne|rewrite Hca; exact Hlen|rewrite Hlen; exact Hlt].
   Qed.
 End props.
+
+(* ---------- concrete instances of the hypotheses of the theorems above (none of them is vacuous) ---------- *)
+Example ex_points_nonempty : forall h n, ex_U h -> (ex_points h n = [] <-> n = 0%nat).
+Proof. intros h n [-> | ->]; destruct n; cbn; split; intros H; try reflexivity; try discriminate. Qed.
+
+Example ex_over : Forall (op_over ex_U) [Add ep_b 0 0; Refresh [ep_a; ep_b] 3 4; Remove ep_a 0 0; Add ep_a 1 1].
+Proof.
+  constructor; [cbn; unfold ex_U; tauto|]. constructor; [cbn; intros e [<-|[<-|[]]]; cbn; unfold ex_U; tauto|].
+  constructor; [exact I|]. constructor; [cbn; unfold ex_U; tauto|constructor].
+Qed.
+
+Example ex_error_iff_instance code :
+  route ex_points ConHash true [Add ep_b 0 0; Refresh [ep_a; ep_b] 3 4; Remove ep_a 0 0; Add ep_a 1 1] code = RErr <->
+  forall e, In e (set_of_history [Add ep_b 0 0; Refresh [ep_a; ep_b] 3 4; Remove ep_a 0 0; Add ep_a 1 1]) -> (wgt e <= 0)%Z.
+Proof. exact (route_error_iff_conhash ex_points true ex_U ex_nocollision ex_points_nonempty _ code ex_over). Qed.
+
+Definition ep_c : ep := {| host := [99]; skey := [99]; wgt := 7; wty := 0 |}.
+Example ex_rotation_instance : forall c1 c2 c3 : N * N,
+  Permutation.Permutation
+    (snd (run ex_points RoundRobin false (state_after ex_points RoundRobin false [Refresh [ep_a; ep_b; ep_c] 8 0]) (selects [c1; c2; c3])))
+    (map RSel [ep_a; ep_b; ep_c]).
+Proof.
+  intros c1 c2 c3. apply (rotation_after ex_points false [Refresh [ep_a; ep_b; ep_c] 8 0] [c1; c2; c3]); try reflexivity. discriminate.
+Qed.
+
+Example ex_counts_instance : exists c a, build_static_weight_list ex_eps = BOk c a /\
+  forall i e, nth_error ex_eps i = Some e -> cntz c i = Z.max 1 (wgt e * 100 / 1000).
+Proof.
+  apply (bswl_counts ex_eps 1000 1).
+  - intros e [<-|[<-|[<-|[]]]]; cbn; unfold max_int32; lia.
+  - cbn. tauto.
+  - intros e [<-|[<-|[<-|[]]]]; cbn; lia.
+  - cbn. tauto.
+  - intros e [<-|[<-|[<-|[]]]]; cbn; lia.
+Qed.
